@@ -614,10 +614,10 @@ func runC16(w *core.W) {
 			w.Sample("path", c.Src())
 		}
 	}
-	for round, nr := 0, w.Pick(40, 600); round < nr; round++ {
+	for round, nr := 0, w.Pick(18, 400); round < nr; round++ {
 		data := c16Data(r)
 		// systematic: every top-level name, then every key below it to depth 2 with both operators, then random deeper
-		bases := []string{"this", "missing", "abs", "toString"}
+		bases := []string{"this", "missing", "abs", "toString", "Max", "DATE", "Len", "NOW", "ToInt", "Abs", "MAX", "Year", "tostring", "startwith"}
 		for _, e := range data.M {
 			bases = append(bases, e.K)
 		}
